@@ -50,6 +50,9 @@ var c18Cfgs = []c18Cfg{
 	{"star-headers-credentialed-status-200", cors.Config{Origins: []string{"https://*.example.com"}, Credentialed: true, Methods: []string{"*"}, RequestHeaders: []string{"*"}, MaxAgeInSeconds: -1, ExtraConfig: cors.ExtraConfig{PreflightSuccessStatus: 200}}},
 	{"discrete-status-299", cors.Config{Origins: []string{"https://*.example.com"}, Methods: []string{"PUT"}, RequestHeaders: []string{"X-Listed-1", "X-Listed-2"}, MaxAgeInSeconds: 86400, ExtraConfig: cors.ExtraConfig{PreflightSuccessStatus: 299}}},
 	{"discrete-status-200", cors.Config{Origins: []string{"https://*.example.com"}, Methods: []string{"PUT"}, RequestHeaders: []string{"X-Listed-1", "X-Listed-2"}, ExtraConfig: cors.ExtraConfig{PreflightSuccessStatus: 200}}},
+	{"star-headers-credentialed-pna", cors.Config{Origins: []string{"https://*.example.com"}, Credentialed: true, Methods: []string{"*"}, RequestHeaders: []string{"*"}, ExtraConfig: cors.ExtraConfig{PrivateNetworkAccess: true}}},
+	{"star-methods-pna-nocors", cors.Config{Origins: []string{"https://*.example.com"}, Methods: []string{"*"}, RequestHeaders: []string{"X-Listed-1", "X-Listed-2"}, ExtraConfig: cors.ExtraConfig{PrivateNetworkAccessInNoCORSModeOnly: true}}},
+	{"allow-all-star-methods", cors.Config{Origins: []string{"*"}, Methods: []string{"*"}, RequestHeaders: []string{"X-Listed-1", "X-Listed-2"}}},
 	// hundreds of discrete names in every list (lesson of seeded change C18-n: a per-lookup cost that only exists for large sets)
 	{"large-lists", cors.Config{Origins: c18ManyOrigins(300), Methods: append(c18ManyNames("M", 300), "PUT", "DELETE"), RequestHeaders: append(c18ManyNames("x-h", 1100), "X-Listed-1", "X-Listed-2"), MaxAgeInSeconds: 30, ResponseHeaders: c18ManyNames("x-e", 300)}},
 }
@@ -407,7 +410,14 @@ func TestVerif_C18(t *testing.T) {
 					allocsP[si] = ap
 					// the same request as an HTTP/2 request with a body, the asterisk-form target and Host = its own origin
 					// (lesson of seeded change C18-o: a code path taken only for another protocol version)
-					reqV := rk.mk(n).httpReqVariant(89)
+					// ... sent by a browser that deems the target a private-network one: preflights carry ACRPN: true
+					// (lesson of seeded change C18-q: a slow copy path taken when two response headers share the `true` singleton)
+					qv := rk.mk(n)
+					if _, has := qv.Header[hACRPN]; !has && qv.Method == "OPTIONS" && len(qv.Header[hACRM]) > 0 {
+						qv = qv.clone()
+						qv.Header[hACRPN] = []string{"true"}
+					}
+					reqV := qv.httpReqVariant(89)
 					av := testing.AllocsPerRun(runs, func() {
 						clear(w.h)
 						h.ServeHTTP(w, reqV)
